@@ -74,7 +74,8 @@ ASSUMPTIONS = [
 EXTRA_MODULES = ["CRProps.T14"]      # translator tie: Gen.SrcC14 (regenerated from the working tree every run) = hand model
 TRUSTED = ["lxml/libxml2 XML Schema validator (the Lean validator is compared with it, not proved equal)"]
 REQUIRED_BUCKETS = ["single", "cooperative", "type:PM", "type:ST", "type:KS", "type:KST", "type:MB", "type:Input", "type:PMInput",
-                    "unordered", "schema-checked", "schema-not-applicable", "file-path", "pretty", "compact", "mutant", "reject",
+                    "unordered", "schema-checked", "schema-ppid:zero", "schema-ppid:negative", "schema-ppid:over-int32", "schema-ppid:one",
+                    "schema-ppid:positive", "schema-not-applicable", "file-path", "pretty", "compact", "mutant", "reject",
                     "superset-state", "date", "computation-time", "processor-name", "setter-path", "post-edit", "post:pp_id", "post:reorder",
                     "post:model", "post:traj", "post:append_state", "post:edit_state", "post:same_list", "post:drop", "post:append_pps",
                     "post:init_step", "post:translate_rotate", "post:fail_ct", "post:fail_cost", "post:fail_model", "post:fail_traj",
@@ -136,7 +137,7 @@ DIMENSIONS = {
         "SolutionException", "SolutionReaderException", "StateFields", "StateType", "StateTypeException", "SupportedCostFunctions",
         "TrajectoryType", "VehicleModel", "VehicleType", "XMLStateFields")},
     # --- PlanningProblemSolution
-    "PlanningProblemSolution.__init__(planning_problem_id)": "0, negative, huge, np.int64 (numpy-scalars); re-assigned after assembly (post:pp_id); given twice (duplicate-id)",
+    "PlanningProblemSolution.__init__(planning_problem_id)": "0, 1, negative, around 2^31, beyond 2^64 - each value class required in a document VALIDATED against the tree's schema file (schema-ppid:*); np.int64 (numpy-scalars); re-assigned after assembly (post:pp_id); given twice (duplicate-id)",
     "PlanningProblemSolution.__init__(vehicle_model)": "all five; re-set through the setter (post:model, post:fail_model)",
     "PlanningProblemSolution.__init__(vehicle_type)": "all four; re-assigned (post:vtype)",
     "PlanningProblemSolution.__init__(cost_function)": "every admissible one; re-set (post:cost); refused ones (post:fail_cost, reject stream)",
@@ -400,7 +401,9 @@ def gen_date(r):
 def gen_case(ctx, force_combo=None):
     r = ctx.rng
     n = r.choice([1, 1, 1, 2, 2, 3, 4])
-    ids = r.sample([0, 1, 2, 3, 7, 42, 1215, 99999, 10 ** 12, -5], n)
+    ids = r.sample([0, 1, 2, 3, 7, 42, 1215, 99999, 2 ** 31 - 1, 2 ** 31, 10 ** 12, 2 ** 64 + 1, -1, -5, -2 ** 31 - 1], n)
+    if r.random() < 0.15 and 0 not in ids:
+        ids[r.randrange(n)] = 0        # the id the library's own examples use
     pps = [gen_pps(r, pid, force_combo if i == 0 else None) for i, pid in enumerate(ids)]
     if n > 1 and r.random() < 0.5:
         order = schema_info()["order"]
@@ -906,31 +909,73 @@ def model_tree_view(t):
 # ------------------------------------------------------------------------------------------------ schema
 
 def schema_info():
-    """the shipped schema, read with lxml: validator, the JSON form compared with the Lean term, tag -> position"""
+    """the shipped schema OF THE TREE UNDER TEST, read with lxml: validator, the JSON form compared with the Lean term, tag -> position.
+
+    The JSON form is what the Lean term `solSchema` can represent (root, trajectory elements with their state element and typed leaves,
+    root attributes; every trajectory element 0..unbounded with exactly one required xs:string attribute planningProblem, states
+    1..unbounded).  Whatever the file says beyond / against that shape is listed under "unrepresentable" - the comparison with the
+    Lean term then DISAGREES (a verdict path: the oracle keeps judging the written documents against the file with lxml) instead of
+    this parser giving up (which would be an infrastructure exit for a change of the shipped schema)."""
     if "schema" not in _cache:
         from lxml import etree
-        x = etree.parse(XSD_PATH)
-        rootel = x.getroot().find(XS + "element")
-        ct = rootel.find(XS + "complexType")
-        trajs = []
-        for el in ct.find(XS + "sequence").findall(XS + "element"):
-            assert el.get("minOccurs") == "0" and el.get("maxOccurs") == "unbounded", "solution schema: unexpected occurrence bounds"
-            tct = el.find(XS + "complexType")
-            st = tct.find(XS + "sequence").find(XS + "element")
-            assert st.get("minOccurs") == "1" and st.get("maxOccurs") == "unbounded"
-            tattrs = [(a.get("name"), a.get("type"), a.get("use")) for a in tct.findall(XS + "attribute")]
-            assert tattrs == [("planningProblem", "xs:string", "required")], "solution schema: unexpected trajectory attributes"
-            leaves = [[l.get("name"), l.get("type")] for l in st.find(XS + "complexType").find(XS + "all").findall(XS + "element")]
-            trajs.append({"tag": el.get("name"), "state": st.get("name"), "leaves": leaves})
-        attrs = [[a.get("name"), a.get("type"), a.get("use") == "required"] for a in ct.findall(XS + "attribute")]
-        _cache["schema"] = {"xsd": etree.XMLSchema(x), "json": {"root": rootel.get("name"), "trajs": trajs, "attrs": attrs},
-                            "order": {t["tag"]: i for i, t in enumerate(trajs)}}
+        unrep, trajs, attrs, rootname, xsd, broken = [], [], [], None, None, ""
+        try:
+            x = etree.parse(XSD_PATH)
+        except (OSError, etree.XMLSyntaxError) as e:
+            x, broken = None, f"shipped solution schema cannot be read: {type(e).__name__}: {e}"
+        if x is not None:
+            try:
+                xsd = etree.XMLSchema(x)
+            except etree.XMLSchemaParseError as e:
+                broken = f"shipped solution schema is not an XML schema: {e}"
+            rootel = x.getroot().find(XS + "element")
+            ct = rootel.find(XS + "complexType") if rootel is not None else None
+            seq = ct.find(XS + "sequence") if ct is not None else None
+            if rootel is None or ct is None or seq is None:
+                unrep.append("root element / complexType / sequence not found")
+            else:
+                rootname = rootel.get("name")
+                for el in seq.findall(XS + "element"):
+                    tag = el.get("name")
+                    if (el.get("minOccurs"), el.get("maxOccurs")) != ("0", "unbounded"):
+                        unrep.append(f"{tag}: occurrence bounds {el.get('minOccurs')}..{el.get('maxOccurs')}")
+                    tct = el.find(XS + "complexType")
+                    tseq = tct.find(XS + "sequence") if tct is not None else None
+                    st = tseq.find(XS + "element") if tseq is not None else None
+                    if st is None:
+                        unrep.append(f"{tag}: no state element")
+                        trajs.append({"tag": tag, "state": None, "leaves": []})
+                        continue
+                    if (st.get("minOccurs"), st.get("maxOccurs")) != ("1", "unbounded"):
+                        unrep.append(f"{tag}/{st.get('name')}: occurrence bounds {st.get('minOccurs')}..{st.get('maxOccurs')}")
+                    if len(tseq.findall(XS + "element")) != 1:
+                        unrep.append(f"{tag}: more than one child element kind")
+                    tattrs = [(a.get("name"), a.get("type"), a.get("use")) for a in tct.findall(XS + "attribute")]
+                    if tattrs != [("planningProblem", "xs:string", "required")]:
+                        unrep.append(f"{tag}: attributes {tattrs}")
+                    sct = st.find(XS + "complexType")
+                    alle = sct.find(XS + "all") if sct is not None else None
+                    if alle is None:
+                        unrep.append(f"{tag}/{st.get('name')}: content is not xs:all")
+                    leaves = [[l.get("name"), l.get("type")] for l in (alle.findall(XS + "element") if alle is not None else [])]
+                    for l in (alle.findall(XS + "element") if alle is not None else []):
+                        if l.get("type") is None or l.get("minOccurs") not in (None, "1") or l.get("maxOccurs") not in (None, "1") or len(l):
+                            unrep.append(f"{tag}/{st.get('name')}/{l.get('name')}: not a plain typed leaf")
+                    trajs.append({"tag": tag, "state": st.get("name"), "leaves": leaves})
+                attrs = [[a.get("name"), a.get("type"), a.get("use") == "required"] for a in ct.findall(XS + "attribute")]
+        js = {"root": rootname, "trajs": trajs, "attrs": attrs}
+        if unrep or broken:
+            js["unrepresentable"] = ([broken] if broken else []) + unrep
+        _cache["schema"] = {"xsd": xsd, "broken": broken, "json": js, "order": {t["tag"]: i for i, t in enumerate(trajs)}}
     return _cache["schema"]
 
 
 def lxml_valid(doc):
+    """validity of a document against the schema file of the tree under test, decided by libxml2 alone"""
     from lxml import etree
     info = schema_info()
+    if info["xsd"] is None:
+        return False, "SCHEMA_UNUSABLE " + info["broken"]
     d = etree.fromstring(doc.encode("utf-8") if isinstance(doc, str) else doc)
     ok = info["xsd"].validate(d)
     return ok, (str(info["xsd"].error_log.last_error) if not ok else "")
@@ -1017,8 +1062,13 @@ def oracle_roundtrip(ctx, case, sol, sol2, via):
 
 def oracle_schema(ctx, case, sol, doc):
     """second sentence of the property: the document conforms to the shipped schema, for the trajectory types it defines,
-    listed in the order it defines them"""
-    order = schema_info()["order"]
+    listed in the order it defines them.  Judged by libxml2 alone on the schema FILE of the tree under test (not on the Lean term, not
+    on this module's reading of the file): a schema the model cannot represent is still a schema the document does or does not meet."""
+    info = schema_info()
+    if info["xsd"] is None:
+        ctx.fail("C14/schema/unusable", f"no written document can conform: {info['broken'][:300]}", case)
+        return
+    order = info["order"]
     idx = [order.get(t.value) for t in sol.trajectory_types]
     applicable = all(i is not None for i in idx) and idx == sorted(idx)
     if not applicable:
@@ -1028,11 +1078,17 @@ def oracle_schema(ctx, case, sol, doc):
         ctx.excluded += 1            # xs:int is 32 bit; the text does not promise more
         return
     ctx.tag("schema-checked")
+    ids = [int(i) for i in sol.planning_problem_ids]
+    # value classes of the planning problem id (a Python int: the constructor accepts every one of them) in a VALIDATED document
+    for i in ids:
+        ctx.tag("schema-ppid:zero" if i == 0 else "schema-ppid:negative" if i < 0 else "schema-ppid:over-int32" if i > 2 ** 31 - 1
+                else "schema-ppid:one" if i == 1 else "schema-ppid:positive")
     ok, err = lxml_valid(doc)
     if not ok:
         tts = "+".join(t.name for t in sol.trajectory_types)
         m = re.search(r"SCHEMAV_\w+", err)
-        ctx.fail(f"C14/schema/invalid/{m.group(0) if m else 'error'}", f"document of types {tts} is not valid: {err[:300]}", case)
+        ctx.fail(f"C14/schema/invalid/{m.group(0) if m else 'error'}",
+                 f"document of types {tts}, planning problem ids {ids} is not valid: {err[:300]}", case)
 
 
 # ------------------------------------------------------------------------------------------------ mutants
